@@ -103,6 +103,77 @@ CLAIMED = {
              "No axioms.",
         technique="Coq proofs over a control-skeleton model + runtime monitor under deterministic simulation",
         design="5/C19"),
+    "C08": dict(
+        text="Machine-checked proof (Coq 8.16). Model: well-formed transactional partition logs built from any interleaving "
+             "of any number of producers' committed/aborted/open transactions, plain batches, compaction and solitary markers, "
+             "with the broker's fetch answer and aborted-transaction index. On it the Gallina version of "
+             "PartitionRecords._unpack_records - with _consume_aborted_up_to regenerated from aiokafka/consumer/fetcher.py on "
+             "every run - is proved, for every log, fetch offset, cut and admissible index order: read_committed delivers exactly "
+             "the non-transactional and committed-transaction records >= the fetch offset, all below LSO; read_uncommitted "
+             "delivers every data record below HW; no control record is ever delivered; the position ends at the end of the last "
+             "returned batch, past everything filtered; any sequence of cuts delivers what one big response delivers. Each run "
+             "compares the real PartitionRecords over real v2 bytes with the model evaluated inside Coq and an independent "
+             "reference reader on generated logs including every cut of small logs.",
+        note="Trusted: Coq kernel; py2gallina + units_c08.QueueTr (validated per run); hand-written Gallina of _unpack_records / "
+             "_contains_abort_marker / sort (tied by correspondence); the log/broker model (Kafka LSO and collectAbortedTxns "
+             "semantics, HW = log end); reference v2 writer/reader. Message format v2 only; iteration to exhaustion. No axioms.",
+        technique="Coq proof over a hand model containing a source-translated function + differential correspondence with monitors",
+        design="5/C08"),
+    "C09": dict(
+        text="Machine-checked proof (Coq 8.16, no axioms) for models of the pure-Python and compiled v0/v1/v2 builders, readers "
+             "and splitter, plus the varint functions translated from record/util.py on every run: varint round-trip and size "
+             "laws on all int64 and both varint implementations agree; every append sequence, batch size, codec (abstract "
+             "compress/decompress pair) and broker stamping reads back exactly the accepted records; the produced bytes have the "
+             "stated Length, count, last-offset-delta, first/max timestamp, producer fields, attribute bits and CRC; any "
+             "concatenation of well-formed batches of any magic mix plus a partial tail splits batch by batch with each batch's own "
+             "magic; size(), metadata and refusals equal the limit predicate on the produced bytes. Every run compiles the "
+             "extension from the current .pyx and checks the models byte-for-byte against both implementations and an independent "
+             "reference codec; plain-Python monitors report the failing input.",
+        note="Trusted: Coq kernel; py2gallina (validated per run); hand-written models tied by the run's correspondence; OCaml "
+             "extraction (ExtrOcamlBasic only, Z kept) + small text driver, cross-checked against evaluation inside Coq; reference "
+             "codec and monitors; zlib/cramjam abstract in the theorems. Valid inputs only (C-level memory behaviour is C10).",
+        technique="Coq proof over translated and hand-written models + four-way differential correspondence (py / cy / extracted model / reference)",
+        design="5/C09"),
+    "C11": dict(
+        text="For every RequestStruct, Response, header and embedded schema imported from the current tree and regenerated into Coq "
+             "on every run: (a) machine-checked round trip dec(enc v ++ r) = (v, r) for all in-range values of every wire type "
+             "used (also up to dict order for tagged fields); (b) layout equal to a hand-written Kafka (api key, version) table, "
+             "proved to imply byte equality for all values, with two recorded deviations in structs no builder can produce (known "
+             "finding); (c) Request.prepare proved to pick the highest supported version inside the advertised range or raise, "
+             "every _CLASSES list sorted, header version equal to the class's declared version; (d) replies parsed with the request "
+             "version's response schema and header form; (e) listed parameters inexpressible in the negotiated version are "
+             "rejected. Each run ties the models to the code by byte-exact evaluation of the Gallina codec against the real "
+             "classes, exhaustive negotiation over all builders x all (min,max) <= 13 x all parameter subsets, and request bytes "
+             "of every builder and version against the Kafka-table encoding of the expected content.",
+        note="Trusted: Coq kernel and vm_compute; translator/schema2gallina.py (object introspection, cross-checked each run by an "
+             "independent walk); model/Wire.v and C11Negotiate.v are hand models tied by correspondence; model/KafkaSpec.v written "
+             "from memory of the Kafka message definitions (no network); Python's UTF-8 / IEEE-754 conversions; nullability is not "
+             "part of the layout universe; VarInt32/VarInt64 (unused by any struct - a theorem) are outside the quantifier. No axioms.",
+        technique="Coq proof (generic induction on the wire-type universe; finite table checks by vm_compute over regenerated data) + schema translation + differential correspondence + exhaustive negotiation enumeration",
+        design="5/C11"),
+    "C12": dict(
+        text="Machine-checked proof (Coq 8.16) on a connection model: any fragmentation of the byte stream yields the same state; a "
+             "waiter is resolved with a frame only if the frame's correlation id is its own (sole exception with refutation "
+             "witness: FindCoordinator v0 accepts id 0 - known finding pinned by a repository test), in request order, never "
+             "twice; a closed connection has an empty queue and no pending waiter, and EOF/reset/close/unsolicited/mismatched/"
+             "malformed frames close; correlation ids (function translated from conn.py each run) stay in [0,2^31) and in-flight ids "
+             "are distinct, wrap included. The real AIOKafkaConnection (+ client timeout path) on an in-memory transport is compared "
+             "with the model on exhaustive split/cut families and random fault schedules.",
+        note="Trusted: Coq kernel; NextCorr translated from source each run; connection model hand-written, tied by correspondence; "
+             "body decoder as oracle (C11); same-iteration races not explored. No axioms.",
+        technique="LTS model + invariant proofs in Coq, translated counter, differential simulation with exhaustive split/cut families",
+        design="5/C12"),
+    "C18": dict(
+        text="Machine-checked proof (Coq 8.16) for all H/HMAC/PBKDF2/base64 meeting four listed hypotheses: client-first is a valid "
+             "RFC 5802 message for (user, nonce) with invertible escaping; an honest server's StoredKey check accepts the client "
+             "proof and the exchange completes; a non-extending server nonce makes the client raise before client-final; the login "
+             "completes iff v equals HMAC(ServerKey(pw,salt,i),AuthMessage) exactly. The model is compared byte for byte with the "
+             "real ScramAuthenticator on oracle tables computed with hashlib/hmac/base64, live against an independent RFC 5802 "
+             "server, with every single-field tampering of both server messages.",
+        note="Trusted: Coq kernel; hand-written model tied by byte-for-byte correspondence on oracle tables (hashlib/hmac/base64 "
+             "trusted); independent RFC server; int() modelled for ASCII only; cryptographic strength of HMAC/PBKDF2 not claimed. No axioms.",
+        technique="Coq model over abstract primitives (Section variables) + oracle-table correspondence + live tampering against an independent RFC server",
+        design="5/C18"),
 }
 
 ALL = [f"C{i:02d}" for i in range(1, 20)]
